@@ -305,3 +305,65 @@ Section Agree.
     eapply agree_sub; eauto. intros x Hx. rewrite !in_app_iff. auto.
   Qed.
 End Agree.
+
+(* ---- the first iteration of a loop, and a loop that starts one iteration later ---- *)
+Lemma loop_next_ext (b : env -> trace -> res) nx nx' : (forall e, nx e = nx' e) ->
+  forall n e tr, loop b nx n e tr = loop b nx' n e tr.
+Proof. intros H. induction n as [|n IH]; intros e tr; cbn; [reflexivity|]. destruct (b e tr); auto. rewrite H. apply IH. Qed.
+
+Lemma bind_e2_same w (f : triple -> expr) l en :
+  bind_e2 w (map (fun t => (t_name t, f t, t_e2 t)) l) en = bind_e2 w l en.
+Proof. unfold bind_e2. rewrite !map_map. reflexivity. Qed.
+
+Lemma while_never_break m w fuel lvs ss bc en tr v e t : exec m w fuel (SWhile lvs ss bc) en tr <> RBreak v e t.
+Proof. rewrite exec_SWhile. destruct (loop _ _ _ _ _); discriminate. Qed.
+
+Lemma while_first m w fuel lvs ss bc en tr e1 t :
+  exec m w fuel (SWhile lvs ss bc) en tr = RNext e1 t ->
+  (exists v a1, exec_block m w fuel ss (bind_e1 w lvs en) tr = RBreak v a1 t /\ e1 = bind_opt bc v a1) \/
+  (exists ab t1 k v a1, fuel = S k /\ exec_block m w fuel ss (bind_e1 w lvs en) tr = RNext ab t1 /\
+     loop (exec_block m w fuel ss) (bind_e2 w lvs) k (bind_e2 w lvs ab) t1 = RBreak v a1 t /\ e1 = bind_opt bc v a1).
+Proof.
+  rewrite exec_SWhile. destruct fuel as [|k]; [discriminate|].
+  remember (S k) as fl eqn:Ef. rewrite Ef at 2. cbn [loop].
+  destruct (exec_block m w fl ss (bind_e1 w lvs en) tr) as [ab t1|v a1 t1| | | | |] eqn:Eb; try discriminate.
+  - destruct (loop _ _ k _ t1) as [|v a1 t2| | | | |] eqn:El; try discriminate. intros [= <- <-].
+    right. exists ab, t1, k, v, a1. auto.
+  - intros [= <- <-]. left. eauto.
+Qed.
+
+Lemma while_advance m w fuel lvs (f : triple -> expr) ss bc T en tr k ab v a1 t :
+  let adv := map (fun t => (t_name t, f t, t_e2 t)) lvs in
+  fuel = S k ->
+  scopedc_l (map t_name lvs ++ T) ss = true ->
+  (ends_break ss || forallb (fun t => in_scope (defs_l ss ++ map t_name lvs ++ T) (t_e2 t)) lvs) = true ->
+  loop (exec_block m w fuel ss) (bind_e2 w lvs) k (bind_e2 w lvs ab) tr = RBreak v a1 t ->
+  agree w (map t_name lvs ++ T) (bind_e2 w lvs ab) (bind_e1 w adv en) ->
+  exists a1', exec m w fuel (SWhile adv ss bc) en tr = RNext (bind_opt bc v a1') t /\
+              agree w (map t_name lvs ++ T) a1 a1'.
+Proof.
+  intros adv Ef Hss Hl2 El Ha.
+  pose proof (loop_run_agree m w fuel lvs ss T k _ _ tr Hss Hl2 Ha) as H. rewrite El in H.
+  destruct H as [a1' [El' Ha1]]. exists a1'. split; [|exact Ha1].
+  rewrite exec_SWhile.
+  rewrite (loop_next_ext _ (bind_e2 w adv) (bind_e2 w lvs)) by (intros e; apply bind_e2_same).
+  rewrite (loop_fuel (exec_block m w fuel ss) (exec_block m w fuel ss) (bind_e2 w lvs) ltac:(auto) k fuel); [now rewrite El'| lia | rewrite El'; discriminate].
+Qed.
+
+Lemma agree_bind2 w (g g' : triple -> expr) ts T e0 e0' e e' :
+  (forall t, In t ts -> eval w e0 (g t) = eval w e0' (g' t)) -> agree w T e e' ->
+  agree w (map t_name ts ++ T)
+    (combine (map t_name ts) (map (fun t => eval w e0 (g t)) ts) ++ e)
+    (combine (map t_name ts) (map (fun t => eval w e0' (g' t)) ts) ++ e').
+Proof.
+  intros H0 H x Hx.
+  assert (EE : forall en, eval w en (EVar x) = wrap32 (lookup x en)) by reflexivity. rewrite !EE, !lookup_bind.
+  destruct (find (fun t => N.eqb x (t_name t)) ts) as [t|] eqn:F.
+  - apply find_some in F. destruct F as [Ht _]. f_equal. auto.
+  - rewrite <- !EE. apply (H x). rewrite in_app_iff in Hx. destruct Hx as [Hx|Hx]; [|assumption]. exfalso.
+    apply in_map_iff in Hx. destruct Hx as [t [E Ht]]. apply (find_none _ _ F) in Ht. rewrite E, N.eqb_refl in Ht. discriminate.
+Qed.
+Lemma agree_sym w T e e' : agree w T e e' -> agree w T e' e.
+Proof. intros H x Hx. symmetry. auto. Qed.
+Lemma agree_bind_opt w T bc v e e' : agree w T e e' -> agree w (opt_names bc ++ T) (bind_opt bc v e) (bind_opt bc v e').
+Proof. intros H. destruct bc as [b|]; cbn; [apply agree_cons|]; exact H. Qed.
